@@ -520,3 +520,64 @@ Definition fwd_eqb (x y : fwd) : bool :=
   bytes_eqb (f_method x) (f_method y) && bytes_eqb (f_target x) (f_target y) &&
   bytes_eqb (f_version x) (f_version y) && list_eqb nv_eqb (f_headers x) (f_headers y) &&
   bytes_eqb (f_body x) (f_body y).
+
+(* ===================================================================================== *)
+(* witnesses used by the non-vacuity example and the refutation theorems of Props/C02.v     *)
+Definition F (n pre v post : string) : hfield :=
+  {| hf_name := bs n; hf_pre := bs pre; hf_value := bs v; hf_post := bs post |}.
+Definition HT : string := String (Ascii.ascii_of_nat 9) EmptyString.
+Definition cfg_plain : fcfg :=
+  {| cf_agent := bs "proxy.py v2.4"; cf_disable := []; cf_auth_code := None; cf_via_append := true; cf_upgrade_complete := true |}.
+Definition cfg_auth : fcfg :=
+  {| cf_agent := bs "proxy.py v2.4"; cf_disable := [bs "x-drop"; bs "user-agent"]; cf_auth_code := Some (bs "dXNlcjpwYXNz");
+     cf_via_append := true; cf_upgrade_complete := true |}.
+
+(* Content-Length body, userinfo + port + query in the target, name casings, value spacings, hop-by-hop and
+   disabled fields, credentials, a client Via, leading zeros in Content-Length *)
+Definition ex_cl : request :=
+  {| q_method := bs "POST";
+     q_target := Absolute (Some (bs "user", Some (bs "pw"))) (RegName (bs "example.com")) (Some (bs "8080")) (Some (bs "/a/b?x=1"));
+     q_version := bs "HTTP/1.1";
+     q_hs1 := [F "hOsT" HT "example.com:8080" " "; F "Proxy-Connection" " " "keep-alive" ""; F "X-Drop" "" "1" "";
+               F "pRoXy-AuThOrIzAtIoN" "  " "basic  dXNlcjpwYXNz" ""; F "via" " " "1.0 fred" ""];
+     q_framing := RLength (F "content-LENGTH" " " "0005" "") (bs "hello");
+     q_hs2 := [F "Accept" "" "*/*" "  "; F "User-Agent" " " "curl/8" ""] |}.
+(* three chunks (upper/lower-case hex, leading zeros, an extension), last-chunk extension, a trailer; IPv6 host *)
+Definition ex_chunked : request :=
+  {| q_method := bs "PUT"; q_target := Absolute None (IPv6 (bs "::1")) None (Some (bs "/up"));
+     q_version := bs "HTTP/1.1";
+     q_hs1 := [F "Host" " " "[::1]" ""];
+     q_framing := RChunked (F "Transfer-Encoding" " " "Chunked" "")
+       {| ch_chunks := [ {| ck_size := bs "5"; ck_ext := []; ck_data := bs "hello" |};
+                         {| ck_size := bs "00A"; ck_ext := bs ";name=val"; ck_data := bs "0123456789" |};
+                         {| ck_size := bs "0b"; ck_ext := []; ck_data := bs " chunked!!!" |} ];
+          ch_last_size := bs "0"; ch_last_ext := bs ";last"; ch_trailers := [bs "X-Trailer: 1"] |};
+     q_hs2 := [F "Expect" " " "100-continue" ""] |}.
+(* empty chunked body, HTTP/1.0, no path *)
+Definition ex_empty_chunked : request :=
+  {| q_method := bs "POST"; q_target := Absolute None (IPv4 (bs "10.0.0.1")) (Some (bs "81")) None;
+     q_version := bs "HTTP/1.0"; q_hs1 := [];
+     q_framing := RChunked (F "transfer-encoding" "" "chunked" "")
+       {| ch_chunks := []; ch_last_size := bs "000"; ch_last_ext := []; ch_trailers := [] |};
+     q_hs2 := [] |}.
+(* a later upgrade request *)
+Definition ex_upgrade : request :=
+  {| q_method := bs "GET"; q_target := Absolute None (RegName (bs "h")) None (Some (bs "/ws")); q_version := bs "HTTP/1.1";
+     q_hs1 := [F "Connection" " " "Upgrade" ""; F "Upgrade" " " "websocket" ""; F "Host" " " "h" ""];
+     q_framing := RNone; q_hs2 := [] |}.
+
+Definition via24 : bytes := bs "1.1 proxy.py v2.4".
+
+
+(* the code as found, before the two fix: commits *)
+Definition as_found_via (cfg : fcfg) : fcfg :=
+  {| cf_agent := cf_agent cfg; cf_disable := cf_disable cfg; cf_auth_code := cf_auth_code cfg;
+     cf_via_append := false; cf_upgrade_complete := cf_upgrade_complete cfg |}.
+Definition as_found_upgrade (cfg : fcfg) : fcfg :=
+  {| cf_agent := cf_agent cfg; cf_disable := cf_disable cfg; cf_auth_code := cf_auth_code cfg;
+     cf_via_append := cf_via_append cfg; cf_upgrade_complete := false |}.
+
+(* a request with a Transfer-Encoding coding list (known finding C02-te-list-not-chunked) *)
+Definition te_list_raw : bytes :=
+  bs "POST http://h.example/ HTTP/1.1" ++ CRLF ++ bs "Host: h.example" ++ CRLF ++
+  bs "Transfer-Encoding: gzip, chunked" ++ CRLF ++ CRLF ++ bs "3" ++ CRLF ++ bs "abc" ++ CRLF ++ bs "0" ++ CRLF ++ CRLF.
